@@ -19,10 +19,19 @@ MUTEX_CODES = {
 }
 
 
-def gen_cases(v, out):
+def gen_cases(v, out, part, parts):
+    """one harness run = one part of the enumeration, written to a fresh directory"""
+    for fn in ("cases.txt", "stats.json"):
+        try:
+            os.remove(os.path.join(out, fn))
+        except FileNotFoundError:
+            pass
     n = 20000 if v.tier == "quick" else 0
-    rc, o = C.sh([C.harness_bin("lease"), "lease", "-out", out, "-tier", v.tier, "-n", str(n), "-seed", str(v.seed)],
-                 timeout=6000)
+    # the sub-command word is stripped by the harness' main before flag parsing
+    rc, o = C.sh([C.harness_bin("lease"), "lease", "-out", out, "-tier", v.tier, "-n", str(n), "-seed", str(v.seed),
+                  "-part", str(part), "-parts", str(parts)], timeout=6000)
+    if rc == 0 and not (os.path.exists(os.path.join(out, "cases.txt")) and os.path.exists(os.path.join(out, "stats.json"))):
+        return False, "harness exited 0 but wrote no cases.txt/stats.json under %s: %s" % (out, o[-500:])
     return rc == 0, o
 
 
@@ -41,10 +50,6 @@ def _run_line_for(cases_lines, lineno):
     return cases_lines[lineno - 1]
 
 
-def _shortest(ms):
-    return min(ms, key=lambda m: (len(m["case"]), m["line"]))
-
-
 def run(v):
     proof_ok, problems = C.standard_proof_phase(v, PID)
     if not proof_ok:
@@ -60,14 +65,57 @@ def run(v):
                     {"theorem_or_correspondence": "correspondence lease_run (harness build)"}, False)
         return
     out = os.path.join(C.WORK, PID)
-    ok, o = gen_cases(v, out)
-    if not ok:
-        v.violation("C20/harness-run", o[-1500:], {"theorem_or_correspondence": "correspondence lease_run (harness run)"}, False)
-        return
-    cases = os.path.join(out, "cases.txt")
-    total, mism, errors = C.run_runner(cases, LAYERS)
-    stats = json.load(open(os.path.join(out, "stats.json")))
+    os.makedirs(out, exist_ok=True)
+    # the thorough enumeration (millions of schedules) is split into parts, one case file at a time
+    parts = 1 if v.tier == "quick" else 12
+    total, errors = 0, []
+    buckets = {}   # (entry, oracle code) -> {"n": count, "best": shortest mismatching case (+ its lease_run line)}
+    stats = None
+    for part in range(parts):
+        ok, o = gen_cases(v, out, part, parts)
+        if not ok:
+            v.violation("C20/harness-run", o[-1500:],
+                        {"theorem_or_correspondence": "correspondence lease_run (harness run, part %d/%d)" % (part, parts)}, False)
+            return
+        cases = os.path.join(out, "cases.txt")
+        t, m, e = C.run_runner(cases, LAYERS)
+        st = json.load(open(os.path.join(out, "stats.json")))
+        if t == 0 or t != st.get("cases"):
+            v.violation("C20/no-cases", "part %d/%d: the runner evaluated %d cases, the harness reports %s; %s"
+                        % (part, parts, t, st.get("cases"), "; ".join(e[:2])),
+                        {"theorem_or_correspondence": "correspondence lease_run (case generation)"}, False)
+            return
+        total += t
+        errors += e
+        if m:
+            txt = open(cases).read().split("\n")
+            for x in m:
+                key = (x["entry"], _code(x) if x["entry"] != "lease_run" else 0)
+                bk = buckets.setdefault(key, {"n": 0, "best": None})
+                bk["n"] += 1
+                if bk["best"] is None or len(x["case"]) < len(bk["best"]["case"]):
+                    x["run_line"] = _run_line_for(txt, x["line"])
+                    bk["best"] = x
+            del txt
+        del m
+        if stats is None:
+            stats = st
+        else:
+            stats["distinct_nontrivial"] += st["distinct_nontrivial"]
+            for k, c in st["classes"].items():
+                stats["classes"][k] = stats["classes"].get(k, 0) + c
+            for k, c in st.get("extra", {}).items():
+                if isinstance(c, int) and not isinstance(c, bool) and not k.endswith("maxlen"):
+                    if k.startswith("max_"):
+                        stats["extra"][k] = max(stats["extra"].get(k, 0), c)
+                    else:
+                        stats["extra"][k] = stats["extra"].get(k, 0) + c
+    stats.get("extra", {})["part"] = "%d parts" % parts
     extra = stats.get("extra", {})
+    if not extra.get("schedules"):
+        v.violation("C20/no-cases", "the harness explored no schedule",
+                    {"theorem_or_correspondence": "correspondence lease_run (case generation)"}, False)
+        return
     v.coverage.update({
         "evaluations": total,
         "distinct_nontrivial": stats["distinct_nontrivial"],
@@ -87,52 +135,42 @@ def run(v):
         "samples": stats["samples"],
         "input_distribution": stats["classes"],
         "scopes": extra,
-        "model_mismatches": len([m for m in mism if m["entry"] == "lease_run"]),
-        "oracle_failures": len([m for m in mism if m["entry"] != "lease_run"]),
+        "model_mismatches": sum(bk["n"] for k, bk in buckets.items() if k[0] == "lease_run"),
+        "oracle_failures": {"%s=%d" % k: bk["n"] for k, bk in sorted(buckets.items()) if k[0] != "lease_run"},
         "runner_errors": errors[:5],
     })
     if errors:
         v.violation("C20/runner-error", "; ".join(errors[:3]), {"theorem_or_correspondence": "runner"}, False)
-    if not mism:
-        return
-    lines = open(cases).read().split("\n")
-    mutex_bad = [m for m in mism if m["entry"] == "lease_mutex_ok"]
-    strict_bad = [m for m in mism if m["entry"] == "lease_gen_strict_ok"]
-    run_bad = [m for m in mism if m["entry"] == "lease_run"]
 
-    by_code = {}
-    for m in mutex_bad:
-        by_code.setdefault(_code(m), []).append(m)
-    for code, ms in sorted(by_code.items()):
-        sig, what = MUTEX_CODES.get(code, ("C20/mutex-oracle-code-%d" % code, "the lease oracle rejected the observed trace"))
-        m = _shortest(ms)
-        v.violation(sig, "%s (%d schedules); observed trace: %s" % (what, len(ms), m["case"].split("\t")[1][:600]),
-                    {"case_lines": [_run_line_for(lines, m["line"])], "oracle": "lease_mutex_ok", "oracle_says": m["model"],
-                     "how": "harness lease -replay"}, True)
+    def trace_of(m):
+        return m["case"].split("\t")[1][:600]
 
-    f6 = [m for m in strict_bad if _code(m) == 5]
-    strict_other = [m for m in strict_bad if _code(m) != 5]
-    if strict_other:
-        m = _shortest(strict_other)
-        v.violation("C20/generation-not-strictly-increasing",
-                    "the generation did not strictly increase from one owner to the next, in a shape other than "
-                    "release-then-acquire (%d schedules); observed trace: %s" % (len(strict_other), m["case"].split("\t")[1][:600]),
-                    {"case_lines": [_run_line_for(lines, m["line"])], "oracle": "lease_gen_strict_ok", "oracle_says": m["model"],
-                     "how": "harness lease -replay"}, True)
-    if f6:
-        m = _shortest(f6)
-        v.violation(F6_SIG,
-                    "after a successful ReleaseLease the lock object is gone and the next acquirer (another owner) starts "
-                    "again at generation 1 (%d schedules; Coq: gen_after_release_refuted); observed trace: %s"
-                    % (len(f6), m["case"].split("\t")[1][:600]),
-                    {"case_lines": [_run_line_for(lines, m["line"])], "oracle": "lease_gen_strict_ok", "oracle_says": m["model"],
-                     "how": "harness lease -replay"}, True)
-    if run_bad:
-        m = _shortest(run_bad)
-        oracle_found = bool(mutex_bad or strict_other)
+    def rep(m, oracle):
+        return {"case_lines": [m["run_line"]], "oracle": oracle, "oracle_says": m["model"], "how": "harness lease -replay"}
+
+    oracle_found = False
+    for (entry, code), bk in sorted(buckets.items()):
+        m = bk["best"]
+        if entry == "lease_mutex_ok":
+            sig, what = MUTEX_CODES.get(code, ("C20/mutex-oracle-code-%d" % code, "the lease oracle rejected the observed trace"))
+            v.violation(sig, "%s (%d schedules); observed trace: %s" % (what, bk["n"], trace_of(m)), rep(m, entry), True)
+            oracle_found = True
+        elif entry == "lease_gen_strict_ok" and code == 5:
+            v.violation(F6_SIG,
+                        "after a successful ReleaseLease the lock object is gone and the next acquirer (another owner) "
+                        "starts again at generation 1 (%d schedules; Coq: gen_after_release_refuted); observed trace: %s"
+                        % (bk["n"], trace_of(m)), rep(m, entry), True)
+        elif entry == "lease_gen_strict_ok":
+            v.violation("C20/generation-not-strictly-increasing",
+                        "the generation did not strictly increase from one owner to the next, in a shape other than "
+                        "release-then-acquire (%d schedules); observed trace: %s" % (bk["n"], trace_of(m)), rep(m, entry), True)
+            oracle_found = True
+    bk = buckets.get(("lease_run", 0))
+    if bk:
+        m = bk["best"]
         v.violation("C20/model-mismatch:lease_run",
                     "implementation and model disagree on %d schedules (call results / final store)%s"
-                    % (len(run_bad), "" if oracle_found else "; the mutual-exclusion, revocation and takeover-generation "
+                    % (bk["n"], "" if oracle_found else "; the mutual-exclusion, revocation and takeover-generation "
                        "oracles held on every schedule of this run"),
                     {"theorem_or_correspondence": "correspondence lease_run (Lease/Client.v vs s3/leaser.go)",
                      "case_lines": [m["case"]], "model_says": m["model"], "how": "harness lease -replay"}, False)
